@@ -1,6 +1,7 @@
 import JwtProofs.HashId
 import JwtProofs.Val
 import JwtModel.Gen.Digests
+import Props.FnTie
 /-!
 # C18 — activation hash identity is stable across re-encoding, migration and versions
 
